@@ -954,7 +954,7 @@ Theorem single_descriptor_loop d out rest d' :
   enc_descriptors_with_length [d] = Ok out -> items_bytes_ok out ->
   0 <= Descriptor_Tag d < 256 -> 0 < desc_size d < 256 ->
   (forall pre body rest', zlen pre = 4 -> (exists bi, enc_descriptor_body d = Ok bi /\ items_bytes_ok bi /\ body = bytes_of_items bi) ->
-     exists i1, parse_descriptor_body (Descriptor_Tag d) (desc_size d) (4 + desc_size d) (mk_iter (pre ++ body ++ rest') 4) = Ok (d', i1)) ->
+     exists i1, parse_descriptor_body (Descriptor_Tag d) (desc_size d) (zlen pre + desc_size d) (mk_iter (pre ++ body ++ rest') (zlen pre)) = Ok (d', i1)) ->
   parse_descriptors (new_iter (bytes_of_items out ++ rest)) =
     Ok ([d'], mk_iter (bytes_of_items out ++ rest) (4 + desc_size d)) /\
   zlen (bytes_of_items out) = 4 + desc_size d.
@@ -1032,9 +1032,9 @@ Proof.
   destruct (single_descriptor_loop d out rest (set_StreamIdentifier (desc_hdr 82 1) v) H Hok) as [E _]; [rewrite Ht; lia|lia| |rewrite Hs in E; exact E].
   intros pre body rest' Hpre (bi & Ebi & Hbok & ->). rewrite Ht, Hs.
   assert (bi = enc_stream_identifier v) by (unfold enc_descriptor_body in Ebi; rewrite Ht, Hv in Ebi; inversion Ebi; reflexivity). subst bi.
-  change (parse_descriptor_body 82 1 (4 + 1)) with (v0 <- new_descriptor_stream_identifier ;; iret (set_StreamIdentifier (desc_hdr 82 1) v0)).
+  change (parse_descriptor_body 82 1 (zlen pre + 1)) with (v0 <- new_descriptor_stream_identifier ;; iret (set_StreamIdentifier (desc_hdr 82 1) v0)).
   unfold enc_stream_identifier. rewrite bytes_of_items_cons_u8, bytes_of_items_nil by iok.
-  rewrite Z.mod_small by exact Hr. rewrite <- Hpre.
+  rewrite Z.mod_small by exact Hr.
   unfold new_descriptor_stream_identifier, ibind. cbn [app]. rewrite next_byte_step. unfold iret. destruct v. eexists. reflexivity.
 Qed.
 
@@ -1051,9 +1051,9 @@ Proof.
   destruct (single_descriptor_loop d out rest (set_DataStreamAlignment (desc_hdr 6 1) v) H Hok) as [E _]; [rewrite Ht; lia|lia| |rewrite Hs in E; exact E].
   intros pre body rest' Hpre (bi & Ebi & Hbok & ->). rewrite Ht, Hs.
   assert (bi = enc_data_stream_alignment v) by (unfold enc_descriptor_body in Ebi; rewrite Ht, Hv in Ebi; inversion Ebi; reflexivity). subst bi.
-  change (parse_descriptor_body 6 1 (4 + 1)) with (v0 <- new_descriptor_data_stream_alignment ;; iret (set_DataStreamAlignment (desc_hdr 6 1) v0)).
+  change (parse_descriptor_body 6 1 (zlen pre + 1)) with (v0 <- new_descriptor_data_stream_alignment ;; iret (set_DataStreamAlignment (desc_hdr 6 1) v0)).
   unfold enc_data_stream_alignment. rewrite bytes_of_items_cons_u8, bytes_of_items_nil by iok.
-  rewrite Z.mod_small by exact Hr. rewrite <- Hpre.
+  rewrite Z.mod_small by exact Hr.
   unfold new_descriptor_data_stream_alignment, ibind. cbn [app]. rewrite next_byte_step. unfold iret. destruct v. eexists. reflexivity.
 Qed.
 
@@ -1078,7 +1078,7 @@ Proof.
   assert (bi = [WBytes (Descriptor_UserDefined d)]) by (unfold enc_descriptor_body in Ebi; rewrite Hu in Ebi; inversion Ebi; reflexivity). subst bi.
   unfold parse_descriptor_body. rewrite Hu.
   rewrite bytes_of_items_cons_bytes, bytes_of_items_nil, app_nil_r by (try apply ok_single_bytes; iok).
-  rewrite <- Hpre. unfold ibind. rewrite next_bytes_step by reflexivity. unfold iret. eexists. reflexivity.
+  unfold ibind. rewrite next_bytes_step by reflexivity. unfold iret. eexists. reflexivity.
 Qed.
 
 (* network name (EN 300 468 6.2.27) *)
@@ -1096,9 +1096,9 @@ Proof.
   intros pre body rest' Hpre (bi & Ebi & Hbok & ->). rewrite Ht, Hs.
   assert (bi = enc_network_name v) by (unfold enc_descriptor_body in Ebi; rewrite Ht, Hv in Ebi; inversion Ebi; reflexivity). subst bi.
   set (n := zlen (DescriptorNetworkName_Name v)) in *.
-  change (parse_descriptor_body 64 n (4 + n)) with (v0 <- new_descriptor_network_name (4 + n) ;; iret (set_NetworkName (desc_hdr 64 n) v0)).
+  change (parse_descriptor_body 64 n (zlen pre + n)) with (v0 <- new_descriptor_network_name (zlen pre + n) ;; iret (set_NetworkName (desc_hdr 64 n) v0)).
   unfold enc_network_name in *. rewrite bytes_of_items_cons_bytes, bytes_of_items_nil, app_nil_r by (try apply ok_single_bytes; iok).
-  rewrite <- Hpre. unfold new_descriptor_network_name, bytes_to, ibind. rewrite ioffset_step.
+  unfold new_descriptor_network_name, bytes_to, ibind. rewrite ioffset_step.
   replace (zlen pre + n - zlen pre) with n by lia. rewrite next_bytes_step by reflexivity. unfold iret. destruct v. eexists. reflexivity.
 Qed.
 
@@ -1134,7 +1134,7 @@ Proof.
   subst bi. set (n := zlen (DescriptorUnknown_Content v)) in *.
   unfold parse_descriptor_body. rewrite Hu. unfold_tags. not_typed Hn.
   unfold enc_unknown in *. rewrite bytes_of_items_cons_bytes, bytes_of_items_nil, app_nil_r by (try apply ok_single_bytes; iok).
-  rewrite <- Hpre. unfold new_descriptor_unknown, ibind. rewrite next_bytes_step by reflexivity. unfold iret.
+  unfold new_descriptor_unknown, ibind. rewrite next_bytes_step by reflexivity. unfold iret.
   destruct v as [c t]. cbn [DescriptorUnknown_Tag DescriptorUnknown_Content] in *. subst t. eexists. reflexivity.
 Qed.
 
@@ -1160,9 +1160,9 @@ Proof.
   destruct (single_descriptor_loop d out rest (set_PrivateDataIndicator (desc_hdr 15 4) v) H Hok) as [E _]; [rewrite Ht; lia|lia| |rewrite Hs in E; exact E].
   intros pre body rest' Hpre (bi & Ebi & Hbok & ->). rewrite Ht, Hs.
   assert (bi = enc_private_data_indicator v) by (unfold enc_descriptor_body in Ebi; rewrite Ht, Hv in Ebi; inversion Ebi; reflexivity). subst bi.
-  change (parse_descriptor_body 15 4 (4 + 4)) with (v0 <- new_descriptor_private_data_indicator ;; iret (set_PrivateDataIndicator (desc_hdr 15 4) v0)).
+  change (parse_descriptor_body 15 4 (zlen pre + 4)) with (v0 <- new_descriptor_private_data_indicator ;; iret (set_PrivateDataIndicator (desc_hdr 15 4) v0)).
   unfold enc_private_data_indicator. destruct (u32_group _ Hr) as [Hl Hb].
-  rewrite <- Hpre. unfold new_descriptor_private_data_indicator, ibind. rewrite next_bytes_nocopy_step by exact Hl.
+  unfold new_descriptor_private_data_indicator, ibind. rewrite next_bytes_nocopy_step by exact Hl.
   unfold iret. rewrite Hb. destruct v. eexists. reflexivity.
 Qed.
 
@@ -1179,9 +1179,9 @@ Proof.
   destruct (single_descriptor_loop d out rest (set_PrivateDataSpecifier (desc_hdr 95 4) v) H Hok) as [E _]; [rewrite Ht; lia|lia| |rewrite Hs in E; exact E].
   intros pre body rest' Hpre (bi & Ebi & Hbok & ->). rewrite Ht, Hs.
   assert (bi = enc_private_data_specifier v) by (unfold enc_descriptor_body in Ebi; rewrite Ht, Hv in Ebi; inversion Ebi; reflexivity). subst bi.
-  change (parse_descriptor_body 95 4 (4 + 4)) with (v0 <- new_descriptor_private_data_specifier ;; iret (set_PrivateDataSpecifier (desc_hdr 95 4) v0)).
+  change (parse_descriptor_body 95 4 (zlen pre + 4)) with (v0 <- new_descriptor_private_data_specifier ;; iret (set_PrivateDataSpecifier (desc_hdr 95 4) v0)).
   unfold enc_private_data_specifier. destruct (u32_group _ Hr) as [Hl Hb].
-  rewrite <- Hpre. unfold new_descriptor_private_data_specifier, ibind. rewrite next_bytes_nocopy_step by exact Hl.
+  unfold new_descriptor_private_data_specifier, ibind. rewrite next_bytes_nocopy_step by exact Hl.
   unfold iret. rewrite Hb. destruct v. eexists. reflexivity.
 Qed.
 
@@ -1198,11 +1198,158 @@ Proof.
   destruct (single_descriptor_loop d out rest (set_MaximumBitrate (desc_hdr 14 3) v) H Hok) as [E _]; [rewrite Ht; lia|lia| |rewrite Hs in E; exact E].
   intros pre body rest' Hpre (bi & Ebi & Hbok & ->). rewrite Ht, Hs.
   assert (bi = enc_maximum_bitrate v) by (unfold enc_descriptor_body in Ebi; rewrite Ht, Hv in Ebi; inversion Ebi; reflexivity). subst bi.
-  change (parse_descriptor_body 14 3 (4 + 3)) with (v0 <- new_descriptor_maximum_bitrate ;; iret (set_MaximumBitrate (desc_hdr 14 3) v0)).
+  change (parse_descriptor_body 14 3 (zlen pre + 3)) with (v0 <- new_descriptor_maximum_bitrate ;; iret (set_MaximumBitrate (desc_hdr 14 3) v0)).
   destruct (bytes_of_group (enc_maximum_bitrate v) 3) as [Hl Hb]; [exact Hbok|unfold enc_maximum_bitrate; bl; reflexivity|].
-  rewrite <- Hpre. unfold new_descriptor_maximum_bitrate, ibind. rewrite next_bytes_nocopy_step by exact Hl.
+  unfold new_descriptor_maximum_bitrate, ibind. rewrite next_bytes_nocopy_step by exact Hl.
   unfold iret, bitsf. rewrite Hb. unfold enc_maximum_bitrate, items_bits. cbn [flat_map item_bits]. rewrite app_nil_r.
   rewrite (field_skip 2) by lia. change (2 - 2)%nat with 0%nat. rewrite Hk, Z.div_mul by lia.
   rewrite <- (app_nil_r (bits_of 22 k)), field_here by exact Hr.
   destruct v as [b]. cbn [DescriptorMaximumBitrate_Bitrate] in Hk. subst b. eexists. reflexivity.
+Qed.
+
+Lemma bytes_of_single_bytes a : bytes_ok a -> bytes_of_items [WBytes a] = a.
+Proof. intros H. rewrite bytes_of_items_cons_bytes, bytes_of_items_nil, app_nil_r by (auto; iok). reflexivity. Qed.
+
+Lemma items_ok_tail it l : items_bytes_ok (it :: l) -> items_bytes_ok l.
+Proof. intros H. inversion H; assumption. Qed.
+Lemma items_ok_head_bytes a l : items_bytes_ok (WBytes a :: l) -> bytes_ok a.
+Proof. intros H. inversion H; assumption. Qed.
+
+(* registration (ISO/IEC 13818-1 2.6.8) *)
+Theorem rt_registration d v out rest :
+  Descriptor_Tag d = 5 -> Descriptor_Registration d = Some v ->
+  0 <= DescriptorRegistration_FormatIdentifier v < 2 ^ 32 ->
+  zlen (DescriptorRegistration_AdditionalIdentificationInfo v) < 252 ->
+  enc_descriptors_with_length [d] = Ok out -> items_bytes_ok out ->
+  parse_descriptors (new_iter (bytes_of_items out ++ rest)) =
+    Ok ([set_Registration (desc_hdr 5 (4 + zlen (DescriptorRegistration_AdditionalIdentificationInfo v))) v],
+        mk_iter (bytes_of_items out ++ rest) (8 + zlen (DescriptorRegistration_AdditionalIdentificationInfo v))).
+Proof.
+  intros Ht Hv Hr Hl H Hok. set (ai := DescriptorRegistration_AdditionalIdentificationInfo v) in *.
+  pose proof (zlen_nonneg ai) as Hnn.
+  assert (Hs : desc_size d = 4 + zlen ai) by (unfold desc_size; rewrite Ht, Hv; reflexivity).
+  destruct (single_descriptor_loop d out rest (set_Registration (desc_hdr 5 (4 + zlen ai)) v) H Hok) as [E _];
+    [rewrite Ht; lia|lia| |rewrite Hs in E; replace (8 + zlen ai) with (4 + (4 + zlen ai)) by lia; exact E].
+  intros pre body rest' Hpre (bi & Ebi & Hbok & ->). rewrite Ht, Hs.
+  assert (bi = enc_registration v) by (unfold enc_descriptor_body in Ebi; rewrite Ht, Hv in Ebi; inversion Ebi; reflexivity). subst bi.
+  change (parse_descriptor_body 5 (4 + zlen ai) (zlen pre + (4 + zlen ai))) with
+    (v0 <- new_descriptor_registration (zlen pre + (4 + zlen ai)) ;; iret (set_Registration (desc_hdr 5 (4 + zlen ai)) v0)).
+  unfold enc_registration in *. fold ai in Hbok |- *.
+  assert (Hai : bytes_ok ai) by (apply items_ok_tail in Hbok; apply items_ok_head_bytes in Hbok; exact Hbok).
+  destruct (u32_group _ Hr) as [Hl4 Hb4].
+  change [wu32 (DescriptorRegistration_FormatIdentifier v); WBytes ai] with ([wu32 (DescriptorRegistration_FormatIdentifier v)] ++ [WBytes ai]).
+  rewrite (bytes_of_items_app _ _ 4) by (try (unfold wu32; bl; reflexivity); iok). rewrite bytes_of_single_bytes by exact Hai.
+  set (g := bytes_of_items [wu32 (DescriptorRegistration_FormatIdentifier v)]) in *.
+  rewrite <- app_assoc. unfold new_descriptor_registration, ibind. rewrite next_bytes_nocopy_step by exact Hl4.
+  unfold rest_bytes, ibind. rewrite ioffset_step.
+  assert (Ez : zlen (pre ++ g) = zlen pre + 4) by (rewrite zlen_app; lia).
+  destruct (zlen (pre ++ g) <? zlen pre + (4 + zlen ai)) eqn:Ec.
+  - replace (zlen pre + (4 + zlen ai) - zlen (pre ++ g)) with (zlen ai) by lia.
+    rewrite next_bytes_step by reflexivity.
+    unfold iret. rewrite Hb4. destruct v. eexists. reflexivity.
+  - assert (Hz : zlen ai = 0) by lia.
+    assert (Eai : ai = []) by (apply length_zero_iff_nil; unfold zlen in Hz; lia).
+    unfold iret. rewrite Hb4. destruct v as [a f]. unfold ai in Eai. cbn [DescriptorRegistration_AdditionalIdentificationInfo] in Eai.
+    rewrite Eai. eexists. reflexivity.
+Qed.
+
+(* ISO 639 language and audio type (ISO/IEC 13818-1 2.6.18, one entry): 3-byte language code *)
+Theorem rt_iso639 d v out rest :
+  Descriptor_Tag d = 10 -> Descriptor_ISO639LanguageAndAudioType d = Some v ->
+  length (DescriptorISO639LanguageAndAudioType_Language v) = 3%nat ->
+  byte_range (DescriptorISO639LanguageAndAudioType_Type v) ->
+  enc_descriptors_with_length [d] = Ok out -> items_bytes_ok out ->
+  parse_descriptors (new_iter (bytes_of_items out ++ rest)) =
+    Ok ([set_ISO639LanguageAndAudioType (desc_hdr 10 4) v], mk_iter (bytes_of_items out ++ rest) 8).
+Proof.
+  intros Ht Hv Hl3 Hr H Hok.
+  assert (Hs : desc_size d = 4) by (unfold desc_size; rewrite Ht, Hv; reflexivity).
+  destruct (single_descriptor_loop d out rest (set_ISO639LanguageAndAudioType (desc_hdr 10 4) v) H Hok) as [E _]; [rewrite Ht; lia|lia| |rewrite Hs in E; exact E].
+  intros pre body rest' Hpre (bi & Ebi & Hbok & ->). rewrite Ht, Hs.
+  assert (bi = enc_iso639 v) by (unfold enc_descriptor_body in Ebi; rewrite Ht, Hv in Ebi; inversion Ebi; reflexivity). subst bi.
+  change (parse_descriptor_body 10 4 (zlen pre + 4)) with
+    (v0 <- new_descriptor_iso639 (zlen pre + 4) ;; iret (set_ISO639LanguageAndAudioType (desc_hdr 10 4) v0)).
+  destruct v as [lang ty]. cbn [DescriptorISO639LanguageAndAudioType_Language DescriptorISO639LanguageAndAudioType_Type] in *.
+  unfold enc_iso639, wbytesn in *. cbn [DescriptorISO639LanguageAndAudioType_Language DescriptorISO639LanguageAndAudioType_Type] in *.
+  rewrite Hl3 in *. cbn [Nat.eqb Nat.leb] in *. rewrite <- Hl3, firstn_all in *. cbn [app] in *.
+  assert (Hlang : bytes_ok lang) by (apply items_ok_head_bytes in Hbok; exact Hbok).
+  rewrite bytes_of_items_cons_bytes, bytes_of_items_cons_u8, bytes_of_items_nil by iok. rewrite Z.mod_small by exact Hr.
+  unfold new_descriptor_iso639, bytes_to, ibind. rewrite ioffset_step. replace (zlen pre + 4 - zlen pre) with 4 by lia.
+  rewrite next_bytes_step by (rewrite zlen_app; unfold zlen; rewrite Hl3; reflexivity).
+  destruct (lang ++ [ty]) as [|x l] eqn:El; [destruct lang; discriminate|]. rewrite <- El.
+  unfold iret. rewrite removelast_last, last_last. eexists. reflexivity.
+Qed.
+
+(* service (EN 300 468 6.2.33) *)
+Theorem rt_service d v out rest :
+  Descriptor_Tag d = 72 -> Descriptor_Service d = Some v -> byte_range (DescriptorService_Type v) ->
+  3 + zlen (DescriptorService_Provider v) + zlen (DescriptorService_Name v) < 256 ->
+  enc_descriptors_with_length [d] = Ok out -> items_bytes_ok out ->
+  parse_descriptors (new_iter (bytes_of_items out ++ rest)) =
+    Ok ([set_Service (desc_hdr 72 (3 + zlen (DescriptorService_Provider v) + zlen (DescriptorService_Name v))) v],
+        mk_iter (bytes_of_items out ++ rest) (4 + (3 + zlen (DescriptorService_Provider v) + zlen (DescriptorService_Name v)))).
+Proof.
+  intros Ht Hv Hr Hl H Hok. destruct v as [name prov ty]. cbn [DescriptorService_Name DescriptorService_Provider DescriptorService_Type] in *.
+  pose proof (zlen_nonneg name). pose proof (zlen_nonneg prov).
+  assert (Hs : desc_size d = 3 + zlen prov + zlen name) by (unfold desc_size; rewrite Ht, Hv; reflexivity).
+  destruct (single_descriptor_loop d out rest
+     (set_Service (desc_hdr 72 (3 + zlen prov + zlen name)) {| DescriptorService_Name := name; DescriptorService_Provider := prov; DescriptorService_Type := ty |}) H Hok) as [E _];
+    [rewrite Ht; lia|lia| |rewrite Hs in E; exact E].
+  intros pre body rest' Hpre (bi & Ebi & Hbok & ->). rewrite Ht, Hs.
+  assert (bi = enc_service {| DescriptorService_Name := name; DescriptorService_Provider := prov; DescriptorService_Type := ty |})
+    by (unfold enc_descriptor_body in Ebi; rewrite Ht, Hv in Ebi; inversion Ebi; reflexivity). subst bi.
+  set (n := 3 + zlen prov + zlen name).
+  change (parse_descriptor_body 72 n (zlen pre + n)) with (v0 <- new_descriptor_service ;; iret (set_Service (desc_hdr 72 n) v0)).
+  unfold enc_service in *. cbn [DescriptorService_Name DescriptorService_Provider DescriptorService_Type] in *.
+  assert (Hp : bytes_ok prov) by (do 2 apply items_ok_tail in Hbok; apply items_ok_head_bytes in Hbok; exact Hbok).
+  assert (Hn : bytes_ok name) by (do 4 apply items_ok_tail in Hbok; apply items_ok_head_bytes in Hbok; exact Hbok).
+  rewrite !bytes_of_items_cons_u8, bytes_of_items_cons_bytes, !bytes_of_items_cons_u8, bytes_of_items_cons_bytes, bytes_of_items_nil, app_nil_r by iok.
+  unfold blen. fold (zlen prov) (zlen name). rewrite !Z.mod_small by (unfold byte_range in *; lia).
+  replace ((ty :: zlen prov :: prov ++ zlen name :: name) ++ rest') with (ty :: zlen prov :: prov ++ zlen name :: name ++ rest')
+    by (cbn [app]; rewrite <- app_assoc; reflexivity).
+  unfold new_descriptor_service, ibind. rewrite next_byte_step. rewrite next_byte_step.
+  rewrite next_bytes_step by reflexivity. rewrite next_byte_step. rewrite next_bytes_step by reflexivity.
+  unfold iret. eexists. reflexivity.
+Qed.
+
+Lemma one_byte_group g : items_bytes_ok g -> bitlen g = 8 ->
+  exists b, bytes_of_items g = [b] /\ bits_of_bytes [b] = items_bits g.
+Proof.
+  intros Hok Hb. destruct (bytes_of_group g 1 Hok) as [Hl Hbits]; [lia|].
+  destruct (bytes_of_items g) as [|b [|c l]] eqn:E; unfold zlen in Hl; cbn [length] in Hl; try lia.
+  exists b. split; [reflexivity|exact Hbits].
+Qed.
+
+(* AVC video (ISO/IEC 13818-1 2.6.64) *)
+Theorem rt_avc_video d v out rest :
+  Descriptor_Tag d = 40 -> Descriptor_AVCVideo d = Some v ->
+  byte_range (DescriptorAVCVideo_ProfileIDC v) -> byte_range (DescriptorAVCVideo_LevelIDC v) ->
+  0 <= DescriptorAVCVideo_CompatibleFlags v < 32 ->
+  enc_descriptors_with_length [d] = Ok out -> items_bytes_ok out ->
+  parse_descriptors (new_iter (bytes_of_items out ++ rest)) =
+    Ok ([set_AVCVideo (desc_hdr 40 4) v], mk_iter (bytes_of_items out ++ rest) 8).
+Proof.
+  intros Ht Hv Hp Hlv Hcf H Hok.
+  assert (Hs : desc_size d = 4) by (unfold desc_size; rewrite Ht, Hv; reflexivity).
+  destruct (single_descriptor_loop d out rest (set_AVCVideo (desc_hdr 40 4) v) H Hok) as [E _]; [rewrite Ht; lia|lia| |rewrite Hs in E; exact E].
+  intros pre body rest' Hpre (bi & Ebi & Hbok & ->). rewrite Ht, Hs.
+  assert (bi = enc_avc_video v) by (unfold enc_descriptor_body in Ebi; rewrite Ht, Hv in Ebi; inversion Ebi; reflexivity). subst bi.
+  change (parse_descriptor_body 40 4 (zlen pre + 4)) with (v0 <- new_descriptor_avc_video ;; iret (set_AVCVideo (desc_hdr 40 4) v0)).
+  destruct v as [h24 still cf c0 c1 c2 lv pr].
+  cbn [DescriptorAVCVideo_ProfileIDC DescriptorAVCVideo_LevelIDC DescriptorAVCVideo_CompatibleFlags] in *.
+  unfold enc_avc_video. cbn [DescriptorAVCVideo_AVC24HourPictureFlag DescriptorAVCVideo_AVCStillPresent DescriptorAVCVideo_CompatibleFlags
+    DescriptorAVCVideo_ConstraintSet0Flag DescriptorAVCVideo_ConstraintSet1Flag DescriptorAVCVideo_ConstraintSet2Flag
+    DescriptorAVCVideo_LevelIDC DescriptorAVCVideo_ProfileIDC].
+  set (g1 := [WBool c0; WBool c1; WBool c2; WBits 5 cf]). set (g3 := [WBool still; WBool h24; WBits 6 255]).
+  change [wu8 pr; WBool c0; WBool c1; WBool c2; WBits 5 cf; wu8 lv; WBool still; WBool h24; WBits 6 255] with (wu8 pr :: (g1 ++ wu8 lv :: g3)).
+  destruct (one_byte_group g1) as (b1 & Eb1 & Hb1); [unfold g1; iok|unfold g1; bl; reflexivity|].
+  destruct (one_byte_group g3) as (b3 & Eb3 & Hb3); [unfold g3; iok|unfold g3; bl; reflexivity|].
+  rewrite bytes_of_items_cons_u8 by (unfold g1, g3; iok).
+  change (WBool c0 :: WBool c1 :: WBool c2 :: WBits 5 cf :: wu8 lv :: g3) with (g1 ++ wu8 lv :: g3).
+  rewrite (bytes_of_items_app g1 _ 1) by (try (unfold g1; bl; reflexivity); unfold g1, g3; iok).
+  rewrite bytes_of_items_cons_u8 by (unfold g3; iok). rewrite Eb1, Eb3. rewrite !Z.mod_small by assumption. cbn [app].
+  unfold new_descriptor_avc_video, ibind. rewrite next_byte_step. rewrite next_byte_step. rewrite next_byte_step. rewrite next_byte_step.
+  unfold iret, bitb, bitsf. rewrite Hb1, Hb3. unfold g1, g3, items_bits. cbn [flat_map item_bits app].
+  rewrite !field_bit_skip, !field_bit_here, !b2z_eqb, field_here by exact Hcf.
+  eexists. reflexivity.
 Qed.
